@@ -187,6 +187,9 @@ fn gen_case(rng: &mut Rng) -> Case {
 	let mut shadow: Vec<Option<(STree, u64)>> = vec![None; nkeys];
 	let mut used = vec![false; nkeys];
 	let mut locked: Vec<usize> = Vec::new();
+	// trees whose last reference was dropped while their reader lock is held: the removal is
+	// postponed, so new trees may still reuse their nodes until the lock is released
+	let mut zombies: Vec<(usize, STree)> = Vec::new();
 	let mut steps = Vec::new();
 	let nsteps = rng.range(10, 40);
 	for _ in 0..nsteps {
@@ -197,8 +200,11 @@ fn gen_case(rng: &mut Rng) -> Case {
 				let mut invalid = false;
 				// trees readable when the transaction is submitted: what earlier transactions left alive
 				let live_at_start: Vec<(usize, STree)> = shadow.iter().enumerate().filter_map(|(k, s)| s.as_ref().map(|(t, _)| (k, t.clone()))).collect();
+				let zombies_at_start = zombies.clone();
 				for _ in 0..nops {
-					let live: Vec<(usize, STree)> = live_at_start.iter().filter(|(k, _)| shadow[*k].is_some()).cloned().collect();
+					let really_live: Vec<(usize, STree)> = live_at_start.iter().filter(|(k, _)| shadow[*k].is_some()).cloned().collect();
+					let mut live = really_live.clone();
+					live.extend(zombies_at_start.iter().cloned());
 					match rng.below(12) {
 						0..=4 => {
 							if let Some(k) = (0..nkeys).find(|k| !used[*k]) {
@@ -215,7 +221,7 @@ fn gen_case(rng: &mut Rng) -> Case {
 							}
 						},
 						5 =>
-							if let Some((k, _)) = live.first() {
+							if let Some((k, _)) = really_live.first() {
 								let k = *k;
 								ops.push(Op::Ref(k));
 								if rc {
@@ -225,8 +231,8 @@ fn gen_case(rng: &mut Rng) -> Case {
 								}
 							},
 						6..=7 =>
-							if !live.is_empty() {
-								let k = rng.pick(&live).0;
+							if !really_live.is_empty() {
+								let k = rng.pick(&really_live).0;
 								ops.push(Op::Deref(k));
 								if append_only {
 									invalid = true;
@@ -234,6 +240,9 @@ fn gen_case(rng: &mut Rng) -> Case {
 									let e = shadow[k].as_mut().unwrap();
 									e.1 -= 1;
 									if e.1 == 0 {
+										if locked.contains(&k) {
+											zombies.push((k, e.0.clone()));
+										}
 										shadow[k] = None;
 									}
 								}
@@ -256,6 +265,7 @@ fn gen_case(rng: &mut Rng) -> Case {
 					let (s2, u2) = replay_shadow(&steps, nkeys, rc, append_only);
 					shadow = s2;
 					used = u2;
+					zombies = zombies_at_start;
 				} else if !ops.is_empty() {
 					steps.push(Step::Commit(ops));
 				}
@@ -278,12 +288,14 @@ fn gen_case(rng: &mut Rng) -> Case {
 				if !locked.is_empty() {
 					let i = rng.below(locked.len() as u64) as usize;
 					let k = locked.remove(i);
+					zombies.retain(|(z, _)| *z != k);
 					steps.push(Step::Unlock(k));
 				},
 			_ => {
 				for k in locked.drain(..) {
 					steps.push(Step::Unlock(k));
 				}
+				zombies.clear();
 				steps.push(Step::Reopen);
 			},
 		}
